@@ -21,6 +21,8 @@ def knobs(draw, n_lin, n_atoms, n_cons):
             'lin_scale': [draw(st.sampled_from([1.0, 1.0, 2.0, 0.5, 3.0])) for _ in range(n_lin)],
             'lin_perm': draw(st.permutations(list(range(n_lin)))),
             'atom_spell': [draw(st.integers(0, 5)) for _ in range(n_atoms)],
+            'atom_scale': [draw(st.sampled_from([1.0, 1.0, 2.0, 0.5, 4.0])) for _ in range(n_atoms)],
+            'set_style': draw(st.integers(0, 5)),
             'atom_perm': draw(st.permutations(list(range(n_atoms)))),
             # ro-model knobs
             'set_arg': draw(st.sampled_from(['list', 'tuple', 'varargs'])), 'adapt_style': draw(st.sampled_from(['whole', 'entry', 'mixed'])),
@@ -77,6 +79,11 @@ def apply_det(case, k):
     for i in k['atom_perm']:
         a = copy.deepcopy(c['atoms'][i])
         a['spell'] = k['atom_spell'][i]
+        sc = k.get('atom_scale', [1.0] * len(c['atoms']))[i]
+        if sc != 1.0:        # positive rescaling of the whole constraint: k*f + k*o <= k*r
+            a['kappa'] = a['kappa'] * sc
+            for key in ('o', 'o0', 'r', 'r0'):
+                a[key] = (np.array(a[key], dtype=float) * sc).tolist()
         atoms.append(a)
     c['atoms'] = atoms
     return c
@@ -96,6 +103,19 @@ def solve_det(case):
 def apply_ro(case, k):
     c = copy.deepcopy(case)
     c['set_arg'], c['adapt_style'], c['xbound_style'] = k['set_arg'], k['adapt_style'], k['xbound_style']
+    # the same sets written differently: bounds as bound objects / rows / per entry, inf-norm as abs / norm, ellipsoid as
+    # norm / sumsqr / quad, half-spaces as <= / >=
+    t = k.get('set_style', 0)
+    for s_ in c['sets']:
+        for p_ in s_['pieces']:
+            if p_['t'] == 'box':
+                p_['style'] = ['bounds', 'rows', 'split'][t % 3]
+            elif p_['t'] == 'linf':
+                p_['style'] = ['abs', 'inf'][t % 2]
+            elif p_['t'] == 'l2':
+                p_['style'] = ['norm', 'sumsqr', 'quad'][t % 3]
+            elif p_['t'] == 'poly':
+                p_['style'] = ['le', 'ge'][t % 2]
     cons = []
     for i in k['con_perm']:
         con = c['cons'][i]
@@ -196,15 +216,15 @@ class C15(Prop):
             v1, s1, kind = solve_det(c1)
             v2, s2, _ = solve_det(c2)
             fams = ['flip_obj', 'front', 'decl', 'bound_style', 'lin_style', 'lin_split_eq', 'lin_rowwise', 'lin_scale', 'lin_perm',
-                    'atom_spell', 'atom_perm']
+                    'atom_spell', 'atom_perm', 'atom_scale']
         else:
             base = case['ro']
             c1, c2 = apply_ro(base, k1), apply_ro(base, k2)
             v1, s1, kind = solve_ro(c1, k1['as_dro'])
             v2, s2, _ = solve_ro(c2, k2['as_dro'])
-            fams = ['set_arg', 'adapt_style', 'xbound_style', 'con_style', 'con_vec', 'con_scale', 'con_perm', 'as_dro']
-        ndiff = sum(1 for f in fams if k1[f] != k2[f])
-        labels += ['diff:' + f for f in fams if k1[f] != k2[f]]
+            fams = ['set_arg', 'adapt_style', 'xbound_style', 'con_style', 'con_vec', 'con_scale', 'con_perm', 'as_dro', 'set_style']
+        ndiff = sum(1 for f in fams if k1.get(f) != k2.get(f))
+        labels += ['diff:' + f for f in fams if k1.get(f) != k2.get(f)]
         labels.append('kind:' + kind)
         if v1 is None and v2 is None:
             return Outcome.skip('both_unsolved', labels)
@@ -215,7 +235,7 @@ class C15(Prop):
             return Outcome.inconclusive('cone_solver_status', labels)
         tol = (1e-6 if kind == 'lp' else 2e-4) * (1 + abs(v1))
         if abs(v1 - v2) > tol:
-            return Outcome.fail('value:' + '+'.join(f for f in fams if k1[f] != k2[f])[:60],
+            return Outcome.fail('value:' + '+'.join(f for f in fams if k1.get(f) != k2.get(f))[:60],
                                 'two equivalent presentations give optima %.9g and %.9g' % (v1, v2), labels)
         return Outcome.ok(ndiff >= 2, labels)
 
